@@ -1,24 +1,45 @@
 /-
 C15 — printing a spec and reading it back preserves its meaning.
 
-Property theorems only; helper lemmas are in `Proofs/Print.lean`, `Proofs/PyLit.lean`, `Proofs/IR.lean`.
-Models: `Model/Print.lean` (printer `format_as_spec` of the grammar nodes as a token list, reader =
-ANTLR production sub-grammar + `GrammarProcessor`), `Model/PyLit.lean` (CPython `repr` / literal
-evaluation), `Model/IR.lean` (`Matches`: the language of a node over child tokens).
+Property theorems only; helper lemmas are in `Proofs/Print.lean`, `Proofs/PrintSearch.lean`,
+`Proofs/PyLit.lean`, `Proofs/IR.lean`.
+Models: `Model/Print.lean` (printer `format_as_spec` of the grammar nodes as a token list incl.
+computed repetition bounds; reader = ANTLR production sub-grammar + `GrammarProcessor`; expressions
+with embedded selectors; productions with generators), `Model/PrintSearch.lean` (printer / reader of
+the selector sub-grammar: `search.py` `format_as_spec`, `SearchProcessor`), `Model/PyLit.lean` (CPython
+`repr` / literal evaluation; regex terminals: `_spell_regex`, one-line raw literals),
+`Model/IR.lean` (`Matches`: the language of a node over child tokens).
 The printer's choices are `Generated.printCfg`, extracted from /repo's source on every run by
-`harness/translate_print.py`; both models are tied to /repo by `harness/props/c15.py`.
+`harness/translate_print.py`; the models are tied to /repo by `harness/props/c15.py`.
 
 FULL STATEMENT (DESIGN §4 C15) and what is proved here:
-  read_print, language preservation, print stability, postfix discipline, open bounds, party annotations,
-  F5 counterexample, literal_roundtrip (str, bytes)                         — PROVED below, all inputs
-  regex_quote_roundtrip  (`Terminal.format_as_spec` for regex terminals: r'…', r"…", the `\x27`
-                          rewriting, the bytes-regex `replace`)              — NOT proved: no model of
-                          Python's `re` syntax; differential only (and refuted on the current code for
-                          a raw literal holding both quote kinds, see known finding C15/regex-mixed-quotes)
-  constraint_print_read  (`Constraint.format_as_spec`, searches)             — NOT proved: differential only
-  generators, computed repetition bounds `{int(<n>)}`                         — outside `Node`; differential only
+  §2–§4  read_print (grammar nodes INCL. computed repetition bounds `{e}` `{lo,hi}` `{lo,}`), language
+         preservation, print stability, postfix discipline, open bounds, party annotations,
+         F5 counterexamples                                                    — PROVED, all inputs
+  §5     literal_roundtrip (str, bytes)                                        — PROVED, all inputs
+  §6     regex_literal_roundtrip (`Terminal.format_as_spec` for regex terminals, str and bytes)
+                                                                               — PROVED under the guard
+         `noBareFF` (necessary: finding C15/regex-formfeed) and, for the rewritten characters, the
+         named oracle assumption `PyLit.HexEscapeSound` about `re` (refuted by CPython for verbose
+         patterns: finding C15/regex-verbose-whitespace)
+  §7     expressions with embedded selectors, generators `:= f(<a>)`, productions, grammars
+                                                                               — PROVED: the payload
+         (Python text chunks carried verbatim + selector occurrences) survives print → read; WHERE a
+         selector occurrence starts and ends inside Python text is the ANTLR expression grammar's
+         business and is taken from the real front end (differential)
+  §8     search_print_read (`NonTerminalSearch.format_as_spec` for every search class vs the selector
+         sub-grammar)                                                          — PROVED: the reader
+         returns the paren-free reading `normSel`, which is the search itself for every search the
+         front end builds from a paren-free text; that `normSel s` FINDS what `s` finds
+         (`<a>.(<b>.<c>)` vs `(<a>.<b>).<c>`) is NOT proved: differential
+  NOT proved (differential only, every run): the boolean / comparison / quantifier layer of constraints
+  ABOVE the selectors (`Constraint.format_as_spec`: open findings F18 legacy quantifier, F21 `not` over a
+  comparison, F22 parenthesised boolean group re-read as one expression — root causes in the front-end
+  grammar), the Python text of expressions (`ast.unparse` ∘ the ANTLR expression visitor: property C08),
+  python code of `fandango convert`.
 -/
 import Proofs.Print
+import Proofs.PrintSearch
 import Proofs.PyLit
 import Generated.Print
 namespace FV
@@ -34,32 +55,39 @@ theorem C15_generated_printer_is_sound : Generated.printCfg.Sound := by decide
 
 /-- **Reading the printed form back** succeeds and yields `norm n`: the same node up to node ids,
     collapsed singleton alternatives / concatenations (what `visitAlternative` /
-    `visitConcatenation` do) and a sequence printed bare inside a sequence being spliced into it.
+    `visitConcatenation` do), a sequence printed bare inside a sequence being spliced into it, and the
+    paren-free reading of the selectors inside computed bounds.
     For every expressible node (`wf`: non-empty alternatives and sequences, bounds the
-    `Repetition` constructor accepts), every repetition cap. -/
-theorem C15_read_print (cap : Nat) (n : Node) (h : wf cap n = true) :
+    `Repetition` constructor accepts, computed bounds with at least one expression bound), every
+    repetition cap. -/
+theorem C15_read_print (cap : Nat) (n : ENode) (h : wf cap n = true) :
     read cap (print Generated.printCfg n) = some (norm n) :=
   read_print _ C15_generated_printer_is_sound cap n h
 
 /-- the normal form has the same language (over child tokens, any regex oracle) -/
-theorem C15_norm_same_language (R : RegexOracle) (n : Node) (ts : List Tok) :
-    Matches R (norm n) ts ↔ Matches R n ts :=
+theorem C15_norm_same_language (R : RegexOracle) (n : ENode) (ts : List Tok) :
+    Matches R (erase (norm n)) ts ↔ Matches R (erase n) ts :=
   norm_matches R n ts
 
 /-- **Round trip preserves the language**: the printed form is accepted by the reader and the node
     read back matches exactly the child-token sequences the original matches; the verified matcher
     returns the same verdicts on both. -/
-theorem C15_roundtrip_same_language (cap : Nat) (n : Node) (h : wf cap n = true) :
+theorem C15_roundtrip_same_language (cap : Nat) (n : ENode) (h : wf cap n = true) :
     ∃ n', read cap (print Generated.printCfg n) = some n' ∧
-      (∀ R ts, Matches R n' ts ↔ Matches R n ts) ∧ (∀ R ts, matchIR R n' ts = matchIR R n ts) := by
+      (∀ R ts, Matches R (erase n') ts ↔ Matches R (erase n) ts) ∧
+      (∀ R ts, matchIR R (erase n') ts = matchIR R (erase n) ts) := by
   refine ⟨norm n, C15_read_print cap n h, fun R ts => norm_matches R n ts, fun R ts => ?_⟩
-  have a := matchIR_iff R ts (norm n)
-  have b := matchIR_iff R ts n
+  have a := matchIR_iff R ts (erase (norm n))
+  have b := matchIR_iff R ts (erase n)
   have c := norm_matches R n ts
-  cases h1 : matchIR R (norm n) ts <;> cases h2 : matchIR R n ts <;> simp_all
+  cases h1 : matchIR R (erase (norm n)) ts <;> cases h2 : matchIR R (erase n) ts <;> simp_all
+
+/-- the theorems cover the plain IR of `Model/IR.lean`: a node without computed bounds is its own
+    erasure -/
+theorem C15_plain_nodes_covered (n : Node) : erase (embed n) = n := erase_embed n
 
 /-- non-vacuity: `(<s:r:a> | 'x'+ ("y" <b>){2,})*` is expressible and is read back as itself -/
-def exNode : Node :=
+def exNode : ENode :=
   .rep "r1" .star (.alt "a1" [.nt "<a>" (some "s") (some "r"),
     .cat "c1" [.rep "p1" .plus (.term (.lit (.text [120]))) 1 none,
                .rep "r2" .braces (.cat "c2" [.term (.lit (.text [121])), .nt "<b>" none none]) 2 none]]) 0 none
@@ -73,7 +101,7 @@ example : print Generated.printCfg exNode =
 /-- **Printing is stable**: for a node of the shape the front end itself builds (every alternative and
     every sequence has at least two members) the node read back prints as exactly the same tokens —
     `repr(parse(repr(g))) == repr(g)` -/
-theorem C15_print_stable (cap : Nat) (n : Node) (h : wf cap n = true) (hs : shaped n = true) :
+theorem C15_print_stable (cap : Nat) (n : ENode) (h : wf cap n = true) (hs : shaped n = true) :
     ∃ n', read cap (print Generated.printCfg n) = some n' ∧
       print Generated.printCfg n' = print Generated.printCfg n :=
   ⟨norm n, C15_read_print cap n h, print_norm _ n hs⟩
@@ -84,13 +112,13 @@ example : shaped exNode = true := by decide
 
 /-- every postfix operator in the printed form directly follows an atom or a parenthesised group
     (so the grammar rule `operator: symbol ('*'|'+'|'?'|'{…}')` applies to the whole operand) -/
-theorem C15_postfix_operand_is_atomic (n : Node) (prev : Option PTok) :
+theorem C15_postfix_operand_is_atomic (n : ENode) (prev : Option PTok) :
     postfixOk prev (print Generated.printCfg n) = true :=
   postfixOk_print _ C15_generated_printer_is_sound n prev
 
 /-- an open-ended repetition is printed with an open bound `{min,}` — not with the current value of
     the (mutable, global) repetition cap — and read back open -/
-theorem C15_open_bound_printed_open (cap : Nat) (id : String) (n : Node) (mn : Nat)
+theorem C15_open_bound_printed_open (cap : Nat) (id : String) (n : ENode) (mn : Nat)
     (h : wf cap (.rep id .braces n mn none) = true) :
     (print Generated.printCfg (.rep id .braces n mn none)).getLast? = some (.repOpen mn) ∧
     read cap (print Generated.printCfg (.rep id .braces n mn none)) = some (.rep "" .braces (norm n) mn none) := by
@@ -99,10 +127,34 @@ theorem C15_open_bound_printed_open (cap : Nat) (id : String) (n : Node) (mn : N
   rfl
 
 /-- bounds, operator kind and operand of every repetition survive -/
-theorem C15_repetition_survives (cap : Nat) (id : String) (k : RepKind) (n : Node) (mn : Nat)
+theorem C15_repetition_survives (cap : Nat) (id : String) (k : RepKind) (n : ENode) (mn : Nat)
     (mx : Option Nat) (h : wf cap (.rep id k n mn mx) = true) :
     read cap (print Generated.printCfg (.rep id k n mn mx)) = some (.rep "" k (norm n) mn mx) :=
   C15_read_print cap _ h
+
+/-- **computed bounds survive**: `<a>{int(<n>)}`, `<a>{1,int(<n>)}`, `<a>{int(<n>),}` are read back
+    with the same bound expressions (Python text verbatim, selectors in their paren-free reading),
+    hence with the same static `min` / `max` -/
+theorem C15_computed_bounds_survive (cap : Nat) (id : String) (n : ENode) (b : CB)
+    (h : wf cap (.crep id n b) = true) :
+    read cap (print Generated.printCfg (.crep id n b)) = some (.crep "" (norm n) (normCB b)) ∧
+    cbMin (normCB b) = cbMin b ∧ cbMax (normCB b) = cbMax b :=
+  ⟨C15_read_print cap _ h, cbMin_normCB b, cbMax_normCB b⟩
+
+/-- non-vacuity: `<b>{1,int(<cnt>.<d>)}` and `('x' <b>){int(<cnt>)}` -/
+def exBound : Expr := [.code "int(", .sel (.plain (.attr (.rule "<cnt>") (.rule "<d>"))), .code ")"]
+def exCrep : ENode :=
+  .cat "c" [.crep "r1" (.nt "<b>" none none) (.range (.num 1) (some (.expr exBound))),
+            .crep "r2" (.cat "c2" [.term (.lit (.text [120])), .nt "<b>" none none])
+              (.single [.code "int(", .sel (.plain (.rule "<cnt>")), .code ")"])]
+example : wf 20 exCrep = true := by decide
+example : read 20 (print Generated.printCfg exCrep) = some (norm exCrep) := by
+  exact C15_read_print 20 exCrep (by decide)
+example : print Generated.printCfg exCrep =
+    [.nt "<b>" none none,
+     .repC (.range (some (.num 1)) (some (.expr [.code "int(", .s (.nt "<cnt>"), .s .dot, .s (.nt "<d>"), .code ")"]))),
+     .lp, .lit (.text [120]), .nt "<b>" none none, .rp,
+     .repC (.single [.code "int(", .s (.nt "<cnt>"), .code ")"])] := by decide +kernel
 
 /-- party annotations survive: `<sender:recipient:name>` and `<sender:name>` are read back with the
     same parties (a recipient without a sender is not expressible and not printed) -/
@@ -118,15 +170,15 @@ theorem C15_party_annotation_survives (cap : Nat) (name : String) (s r : Option 
     | some _ => simp [wf] at h
 
 /-- terminals are read back as the same terminal (the token carries the leaf / the regex id; the
-    quoting of the leaf is §5) -/
+    quoting of the leaf is §5, of the regex §6) -/
 theorem C15_terminal_survives (cap : Nat) (t : Term) :
     read cap (print Generated.printCfg (.term t)) = some (.term t) :=
   C15_read_print cap _ rfl
 
 /-! ## 4. the printer before ec9ecf03 (F5), machine-checked counterexamples -/
 
-def litA : Node := .term (.lit (.text [97]))
-def litB : Node := .term (.lit (.text [98]))
+def litA : ENode := .term (.lit (.text [97]))
+def litB : ENode := .term (.lit (.text [98]))
 
 /-- `("a" "b")*` was printed `'a' 'b'*`, which reads back as `'a' ('b'*)`: the empty sequence is in
     the language of the original and not of the node read back (`rfl` / `decide +kernel`: finite witnesses) -/
@@ -135,13 +187,13 @@ theorem C15_prefix_printer_lost_group :
       = [.lit (.text [97]), .lit (.text [98]), .star] ∧
     read 20 (print (PrintCfg.preFix 20) (.rep "" .star (.cat "" [litA, litB]) 0 none))
       = some (.cat "" [litA, .rep "" .star litB 0 none]) ∧
-    (∀ R, Matches R (.rep "" .star (.cat "" [litA, litB]) 0 none) []) ∧
-    (∀ R, ¬ Matches R (.cat "" [litA, .rep "" .star litB 0 none]) []) := by
+    (∀ R, Matches R (erase (.rep "" .star (.cat "" [litA, litB]) 0 none)) []) ∧
+    (∀ R, ¬ Matches R (erase (.cat "" [litA, .rep "" .star litB 0 none])) []) := by
   refine ⟨by decide +kernel, by rfl, fun R => ?_, fun R => ?_⟩
   · exact (matchIR_iff R [] _).1 (by rfl)
   · intro h
     have h1 := (matchIR_iff R [] _).2 h
-    have h2 : matchIR R (.cat "" [litA, .rep "" .star litB 0 none]) [] = false := by rfl
+    have h2 : matchIR R (erase (.cat "" [litA, .rep "" .star litB 0 none])) [] = false := by rfl
     rw [h2] at h1
     exact Bool.false_ne_true h1
 
@@ -150,13 +202,13 @@ theorem C15_prefix_printer_lost_group :
 theorem C15_prefix_printer_closed_open_bound :
     read 5 (print (PrintCfg.preFix 5) (.rep "" .braces litA 2 none))
       = some (.rep "" .braces litA 2 (some 5)) ∧
-    (∀ R, Matches R (.rep "" .braces litA 2 none) (List.replicate 6 (.leaf (.text [97])))) ∧
-    (∀ R, ¬ Matches R (.rep "" .braces litA 2 (some 5)) (List.replicate 6 (.leaf (.text [97])))) := by
+    (∀ R, Matches R (erase (.rep "" .braces litA 2 none)) (List.replicate 6 (.leaf (.text [97])))) ∧
+    (∀ R, ¬ Matches R (erase (.rep "" .braces litA 2 (some 5))) (List.replicate 6 (.leaf (.text [97])))) := by
   refine ⟨by rfl, fun R => ?_, fun R => ?_⟩
   · exact (matchIR_iff R _ _).1 (by rfl)
   · intro h
     have h1 := (matchIR_iff R _ _).2 h
-    have h2 : matchIR R (.rep "" .braces litA 2 (some 5)) (List.replicate 6 (.leaf (.text [97]))) = false := by rfl
+    have h2 : matchIR R (erase (.rep "" .braces litA 2 (some 5))) (List.replicate 6 (.leaf (.text [97]))) = false := by rfl
     rw [h2] at h1
     exact Bool.false_ne_true h1
 
@@ -187,5 +239,160 @@ theorem C15_literal_roundtrip_bytes (b : Bytes) :
 example : PyLit.reprStr (fun c => c == 233) [105, 116, 39, 115, 32, 34, 113, 34, 10, 0, 233]
     = [39, 105, 116, 92, 39, 115, 32, 34, 113, 34, 92, 110, 92, 120, 48, 48, 233, 39] := by decide +kernel
 example : PyLit.reprBytes [39, 255, 92] = [98, 34, 39, 92, 120, 102, 102, 92, 92, 34] := by decide +kernel
+
+/-! ## 6. quoting of regex terminals (`Terminal.format_as_spec` for `is_regex`, `_spell_regex`)
+
+FULL STATEMENT: for every regex pattern the spec language can express (`regexWf`: the value of a raw
+literal, str or bytes), the printed literal is accepted by the lexer + CPython and evaluates to a
+pattern that denotes the same regex.
+PROVED: `C15_regex_literal_roundtrip` — under the guard `noBareFF` (no *unescaped* form feed in a str
+pattern; the guard is necessary: `C15_regex_formfeed_rejected`, finding C15/regex-formfeed):
+  (a) the literal is read back as the *spelled* pattern, of the same type (str / bytes);
+  (b) where the printer rewrites nothing the spelled pattern IS the pattern (identical string);
+  (c) where it rewrites (`'`→`\x27` with both quote kinds, `\n` `\r`, non-printable-ASCII of a bytes
+      pattern; an escaped `\c` is replaced as a whole) the spelled pattern denotes what the pattern
+      denotes for every `D` that satisfies the named oracle assumption `PyLit.HexEscapeSound`
+      ("wherever a unit stands, `c`, `\c` and `\xNN` mean the same").  The harness checks every
+      instance the proof uses (`PyLit.spellSteps`) against CPython `re` on its candidate set; CPython
+      refutes the assumption exactly for whitespace in verbose `(?x)` patterns
+      (finding C15/regex-verbose-whitespace). -/
+
+/-- **regex literal round trip** (a), (b), (c) above -/
+theorem C15_regex_literal_roundtrip (isBytes : Bool) (pat : List Nat)
+    (hw : PyLit.regexWf isBytes pat = true) (hff : isBytes = false → PyLit.noBareFF pat = true) :
+    PyLit.evalRaw (PyLit.printRegex isBytes pat) = some (isBytes, PyLit.spelled isBytes pat) ∧
+    (PyLit.rewrites (PyLit.regexQuote pat).2 isBytes pat = false → PyLit.spelled isBytes pat = pat) ∧
+    (∀ {α : Type} (D : List Nat → α),
+      PyLit.HexEscapeSound D (PyLit.needsSpell (PyLit.regexQuote pat).2 isBytes) →
+      D (PyLit.spelled isBytes pat) = D pat) := by
+  refine ⟨PyLit.evalRaw_printRegex isBytes pat hw hff, fun h => ?_, fun D H => ?_⟩
+  · apply PyLit.spellRegex_id
+    intro c hc
+    simp only [PyLit.rewrites, List.any_eq_false] at h
+    simpa using h c hc
+  · simpa [PyLit.spelled] using PyLit.spellRegex_denotes D _ _ H pat [] (PyLit.spelled_lt_256 isBytes pat hw) rfl
+
+/-- the spelled form is stable: printing the pattern read back spells nothing new, so
+    `print ∘ read ∘ print = print` on regex literals whose delimiter choice is unchanged
+    (stated on the spelling function: spelling is idempotent) -/
+theorem C15_regex_spelling_idempotent (isBytes : Bool) (pat : List Nat) :
+    PyLit.spellRegex (PyLit.regexQuote pat).2 isBytes (PyLit.spelled isBytes pat)
+      = PyLit.spelled isBytes pat :=
+  PyLit.spellRegex_idem' _ isBytes (PyLit.quoteOk_regexQuote pat) pat
+
+/-- non-vacuity: `x'y"z\\` (both quote kinds, two backslashes at the end), `é+` and the bytes
+    pattern `\<ff>'"` are expressible; their printed forms -/
+example : PyLit.regexWf false [120, 39, 121, 34, 122, 92, 92] = true ∧
+    PyLit.noBareFF [120, 39, 121, 34, 122, 92, 92] = true := by decide
+example : PyLit.printRegex false [120, 39, 121, 34, 122, 92, 92]
+    = [114, 39, 120, 92, 120, 50, 55, 121, 34, 122, 92, 92, 39] := by decide +kernel
+example : PyLit.printRegex false [233, 43] = [114, 39, 233, 43, 39] := by decide +kernel
+example : PyLit.regexWf true [92, 255, 39, 34] = true := by decide
+example : PyLit.printRegex true [92, 255, 39, 34]
+    = [114, 98, 39, 92, 120, 102, 102, 92, 120, 50, 55, 34, 39] := by decide +kernel
+/-- the oracle assumption is satisfiable by a non-constant `D`: the spelling itself -/
+example (isBytes : Bool) (pat : List Nat) :
+    PyLit.HexEscapeSound (PyLit.spellRegex (PyLit.regexQuote pat).2 isBytes)
+      (PyLit.needsSpell (PyLit.regexQuote pat).2 isBytes) :=
+  PyLit.hexEscapeSound_spell' _ isBytes (PyLit.quoteOk_regexQuote pat)
+
+/-- **finding C15/regex-formfeed**: the str pattern `a\fb` is expressible (`r\'\'\'a<FF>b\'\'\'`), but its
+    printed form `r'a<FF>b'` is rejected (the lexer's one-line string excludes a form feed), while
+    the escaped `a\<FF>b` is read back as itself (`decide`: finite witnesses) -/
+theorem C15_regex_formfeed_rejected :
+    PyLit.regexWf false [97, 12, 98] = true ∧
+    PyLit.printRegex false [97, 12, 98] = [114, 39, 97, 12, 98, 39] ∧
+    PyLit.evalRaw (PyLit.printRegex false [97, 12, 98]) = none ∧
+    PyLit.evalRaw (PyLit.printRegex false [97, 92, 12, 98]) = some (false, [97, 92, 12, 98]) := by
+  decide +kernel
+
+/-! ## 7. expressions with embedded selectors, generators, productions, grammars
+
+`Repetition.bounds_constraint.expr_data_*` and `LiteralGenerator.call` are Python text with
+placeholder names for the selector occurrences; `format_as_spec` substitutes each placeholder by its
+search's text, the front end gives each occurrence a fresh placeholder again.  The model keeps the
+structure (`Expr`: text chunks carried verbatim + selector occurrences) and drops the names. -/
+
+/-- **the payload survives**: every text chunk verbatim and in place, every selector occurrence as its
+    paren-free reading -/
+theorem C15_expression_read_print (e : Expr) (h : wfE e = true) :
+    readE (printE e) = some (normE e) :=
+  readE_printE e h
+
+/-- … and the expression read back prints as the same text -/
+theorem C15_expression_print_stable (e : Expr) : printE (normE e) = printE e := printE_normE e
+
+/-- **a production with a generator** `<a> ::= … := f(<b>, <c>.<d>)` is read back as the same
+    production: right-hand side in normal form, the generator expression with its symbol arguments -/
+theorem C15_rule_read_print (cap : Nat) (r : Rule) (h : wfRule cap r = true) :
+    readRule cap (printRule Generated.printCfg r) = some (normRule r) :=
+  readRule_printRule _ C15_generated_printer_is_sound cap r h
+
+/-- **`repr(grammar)`** (`Grammar.__repr__`: one production per rule, in order) is read back as the same
+    list of rules, for every grammar with pairwise different rule names (which a `dict` of rules has) -/
+theorem C15_grammar_read_print (cap : Nat) (g : List Rule) (h : wfG cap g = true) :
+    readG cap (printG Generated.printCfg g) = some (normG g) :=
+  readG_printG _ C15_generated_printer_is_sound cap g h
+
+/-- non-vacuity: `<a> ::= 'x' | 'xx' := dup(<b>)`, `<b> ::= <c>{int(<cnt>)}` -/
+def exGrammar : List Rule :=
+  [⟨"<a>", .alt "a1" [.term (.lit (.text [120])), .term (.lit (.text [120, 120]))],
+      some [.code "dup(", .sel (.plain (.rule "<b>")), .code ")"]⟩,
+   ⟨"<b>", .crep "r1" (.nt "<c>" none none) (.single [.code "int(", .sel (.plain (.rule "<cnt>")), .code ")"]), none⟩]
+example : wfG 20 exGrammar = true := by decide
+example : readG 20 (printG Generated.printCfg exGrammar) = some (normG exGrammar) :=
+  C15_grammar_read_print 20 exGrammar (by decide)
+
+/-! ## 8. the selector sub-grammar (`search.py` `format_as_spec` / `SearchProcessor`)
+
+BOUNDARY: these theorems are about a selector term on its own.  The layer above — the Python
+expression around the placeholders, comparisons, `and` / `or` / `not`, quantifiers — is NOT proved
+(open findings F18, F21, F22 live there). -/
+
+/-- **reading a printed search back** yields its paren-free reading: dots nested to the left, a
+    `[…]` / `{…}` group attached to the last selection.  For every search that prints as a selector
+    (`wfSel`: non-empty groups, `*` entries, no group on a selection that already has one). -/
+theorem C15_search_print_read (s : PS.Sel) (h : PS.wfSel s = true) :
+    PS.readSel (PS.printSel s) = some (PS.normSel s) :=
+  PS.readSel_printSel s h
+
+/-- **exact round trip** for every search of the shape the front end builds from a paren-free text
+    (`flat`: each attribute of a dot is a non-terminal with at most one group) -/
+theorem C15_search_print_read_exact (s : PS.Sel) (h : PS.wfSel s = true) (hf : PS.flat s = true) :
+    PS.readSel (PS.printSel s) = some s := by
+  rw [PS.readSel_printSel s h, PS.normSel_flat s hf]
+
+/-- the normal form is of that shape, and prints as the same tokens (parentheses are all that is
+    forgotten): `print ∘ read ∘ print = print` -/
+theorem C15_search_norm_flat_and_stable (s : PS.Sel) (h : PS.wfSel s = true) :
+    PS.flat (PS.normSel s) = true ∧ PS.printSel (PS.normSel s) = PS.printSel s :=
+  ⟨PS.flat_normSel s h, PS.printSel_normSel s⟩
+
+/-- `*<a>…`, `|<a>…|`, `len(*<a>…)`: the whole `selector_length` -/
+theorem C15_selector_print_read (t : PS.Top) (h : PS.wfTop t = true) :
+    PS.readTop (PS.printTop t) = some (PS.normTop t) :=
+  PS.readTop_printTop t h
+
+/-- slices with omitted bounds keep their places: `[:2]` is not `[2:]`, `[::2]` keeps its step
+    (`decide`: finite witnesses) -/
+theorem C15_slice_bounds_keep_their_places :
+    PS.readSel (PS.printSel (.item (.rule "<a>") [.rng none (some 2) none])) = some (.item (.rule "<a>") [.rng none (some 2) none]) ∧
+    PS.readSel (PS.printSel (.item (.rule "<a>") [.rng (some 2) none none])) = some (.item (.rule "<a>") [.rng (some 2) none none]) ∧
+    PS.readSel (PS.printSel (.item (.rule "<a>") [.rng none none (some 2), .idx 0, .rng none none none]))
+      = some (.item (.rule "<a>") [.rng none none (some 2), .idx 0, .rng none none none]) ∧
+    PS.printSel (.item (.rule "<a>") [.rng none (some 2) none]) ≠ PS.printSel (.item (.rule "<a>") [.rng (some 2) none none]) := by
+  decide +kernel
+
+/-- non-vacuity: `<a>..<b>.<c>{*<d>, *<e>: 0:2}[1]`-like terms; a parenthesised source
+    `<a>.(<b>.<c>)[0]` is read back as `(<a>.<b>).<c>[0]`; `(<a>[0])[1]` is outside `wfSel` and its
+    printed form `<a>[0][1]` is not a selector -/
+def exSel : PS.Sel :=
+  .sel (.attr (.desc (.rule "<a>") (.rule "<b>")) (.rule "<c>")) [⟨"<d>", false, none⟩, ⟨"<e>", false, some (.rng (some 0) (some 2) none)⟩]
+example : PS.wfSel exSel = true ∧ PS.flat exSel = false := by decide
+example : PS.readSel (PS.printSel exSel) = some (PS.normSel exSel) := C15_search_print_read exSel (by decide)
+example : PS.normSel (.attr (.rule "<a>") (.item (.attr (.rule "<b>") (.rule "<c>")) [.idx 0]))
+    = .attr (.attr (.rule "<a>") (.rule "<b>")) (.item (.rule "<c>") [.idx 0]) := by decide
+example : PS.wfSel (.item (.item (.rule "<a>") [.idx 0]) [.idx 1]) = false ∧
+    PS.readSel (PS.printSel (.item (.item (.rule "<a>") [.idx 0]) [.idx 1])) = none := by decide +kernel
 
 end FV
